@@ -36,6 +36,7 @@ CHECKS = {1: "one tracker per external transaction name across the three stores"
           9: "a transaction that its kind's Validate refuses (signer without key, negative vote index, SEND to/from a malformed address) has no effect",
           11: "over all trackers ever created the external (decoded) transaction is unique: no second tracker, under another name, for an external transaction that already backed one",
           12: "at most one mint per external transaction",
+          13: "the refund of a redeem tracker equals the amount its owner was debited when the tracker was created (both from the owner's observed balance)",
           10: "tracker stores and wrapped balances do not depend on the node's witness flag / job store (twin node with the flag off, same transactions)",
           8: "REGRESSION of the repaired defect C15.mint_to_report_locker: the locked amount was credited to the Locker named in the "
              "threshold-crossing report instead of the account that submitted the lock"}
